@@ -568,13 +568,35 @@ func c16Run(out *verifkit.Out, p *c16Params) {
 	if !p.scan {
 		rangeCheck(seen, "fetch")
 		if p.cont && stopped && !cancelled {
-			// a continuous fetch that was given time to catch up has everything published
-			want := c.maxSize - p.start
+			// "carries on with newly published entries": a continuous fetch that is stopped (not cancelled) has delivered every entry
+			// that (i) the log published early enough before Stop for the fetcher to have learned of it and fetched it — the STH poll
+			// backs off up to 30 s (+ jitter) after a 45 s quick phase, and fetching is given 40 s per entry, the allowance the
+			// generator uses for its own stop times — and (ii) the log actually serves (not beyond a back end that died). Entries
+			// published later than that, or after Stop, are not demanded; nothing more than the published prefix may be delivered anyway.
+			demand := int64(0)
+			qualifies := func(at time.Duration, size int64) bool {
+				return at+2*time.Minute+time.Duration(size+1)*40*time.Second <= stopT
+			}
+			if qualifies(0, p.size0) {
+				demand = p.size0
+			}
+			for _, g := range p.growth {
+				if qualifies(g.at, g.size) && g.size > demand {
+					demand = g.size
+				}
+			}
+			if p.failFrom >= 0 && demand > p.failFrom {
+				demand = p.failFrom
+			}
+			want := demand - p.start
 			if want < 0 {
 				want = 0
 			}
-			if int64(len(seen)) != want {
-				out.Fail("continuous-behind "+key, fmt.Sprintf("delivered %d entries, the log published [%d,%d)", len(seen), p.start, c.maxSize))
+			if int64(len(seen)) < want {
+				out.Fail("continuous-behind "+key, fmt.Sprintf("stopped at %v having delivered %d entries; the log had published [%d,%d) long enough before", stopT, len(seen), p.start, demand))
+			}
+			if int64(len(seen)) > c.maxSize-p.start && c.maxSize >= p.start {
+				out.Fail("continuous-behind "+key, fmt.Sprintf("delivered %d entries, the log only ever published [%d,%d)", len(seen), p.start, c.maxSize))
 			}
 		}
 		out.Count("outcome:fetch-ok")
